@@ -176,12 +176,7 @@ type Outcome struct {
 
 // Render builds the scenario's File with the baseline builder and renders it.
 func (sc *Scenario) Render() ([]byte, error) {
-	f := recipe.BuildFile(&sc.File)
-	buf := &bytes.Buffer{}
-	if err := f.Render(buf); err != nil {
-		return nil, err
-	}
-	return buf.Bytes(), nil
+	return recipe.RenderFile(recipe.BuildFile(&sc.File))
 }
 
 // Markers returns marker -> path.
